@@ -12,7 +12,7 @@ ASSUMPTIONS = [
 
 def run(tier, seed):
     common.PID_ALIAS.update({"SQLM": "C02", "KVM": "C02", "RELAY": "C02"})
-    from .. import relay
+    from .. import relay, extra
     # the filter the storage layers see must be the filter the client sent (filter validation vs Filt.Model), and what reaches the
     # client before EOSE is what the storage answered (relay traces: REQ replacement, CLOSE, several subscriptions)
     # "when under its limit": which limit the relay applies is part of the statement -> the limit suites of C12 run here too
@@ -20,7 +20,7 @@ def run(tier, seed):
                                + sqlm.suites_c12(tier, seed) + kvb.suites_c12(tier, seed)
                                + [relay.suite_validate(tier, seed, pid="C02", entry="filt.validate"),
                                   relay.suite_relay(tier, seed, "sql", n=20 if tier == "quick" else 100, label="answers", pid="C02"),
-                                  relay.suite_exhaustive(tier, seed, "sql", pid="C02"), relay.suite_churn(tier, seed, "sql", pid="C02")], "C02")
+                                  relay.suite_exhaustive(tier, seed, "sql", pid="C02"), relay.suite_churn(tier, seed, "sql", pid="C02"), extra.suite_colliding_client_ids(tier, seed), extra.suite_simultaneous_reqs(tier, seed)], "C02")
 
 
 def replay(payload):
